@@ -29,7 +29,8 @@ def run(project, chk):
     chk.rule("V3", "the contrast the verdicts are taken on is the WCAG 2 ratio: calculate_contrast_ratio / luminance / linearisation are the published formulas (the audit of C05, here as a discharged assumption)")
     chk.rule("V4", "the returned text denotes the judged RGB: hex pairs / rgb() ints in order after validation, hsl() fields at full precision inside the reader's range (the emitted-field rules of C06)")
     from checks.C05 import ratio_is_wcag
-    from checks.C06 import emitted_fields
+    from checks.C06 import emitted_fields, format_dispatch
+    format_dispatch(project, chk, "V4")
     ratio_is_wcag(project, chk, "V3", "V3", "V3")
     emitted_fields(project, chk, "V4", "V4")
     contracts, out = run_all(project)
